@@ -1163,8 +1163,15 @@ func (fc *FnCtx) runAts(kind, pattern string, instr ssa.Instruction, args []Val,
 		}
 		key := fmt.Sprintf("at%d", i)
 		fc.ordinals["match:"+key]++
-		if at.Anchor.Ordinal != 0 && fc.ordinals["match:"+key] != at.Anchor.Ordinal {
-			continue
+		if at.Anchor.Ordinal != 0 {
+			// ordinals count matching sites in source order (not in the order blocks are processed)
+			ord := fc.ordinals["match:"+key]
+			if instr != nil {
+				ord = fc.sourceOrdinal(at.Anchor, kind, instr)
+			}
+			if ord != at.Anchor.Ordinal {
+				continue
+			}
 		}
 		fc.ordinals["matched:"+key]++
 		if env == nil {
@@ -1304,4 +1311,59 @@ func (fc *FnCtx) assumeWF(v Val, t types.Type) {
 	}
 	fc.wfSeen[f] = true
 	fc.assume(f)
+}
+
+// sourceOrdinal: 1-based position of instr among the instructions of the function that match the anchor,
+// ordered by source position.
+func (fc *FnCtx) sourceOrdinal(a Anchor, kind string, instr ssa.Instruction) int {
+	var sites []ssa.Instruction
+	for _, b := range fc.fn.Blocks {
+		for _, in := range b.Instrs {
+			var pat string
+			switch x := in.(type) {
+			case *ssa.Call:
+				if kind != "call" {
+					continue
+				}
+				pat = fc.calleeName(x.Common())
+			case *ssa.Go:
+				if kind != "go" {
+					continue
+				}
+				pat = fc.calleeName(x.Common())
+			case *ssa.Send:
+				if kind != "send" {
+					continue
+				}
+				pat = fc.srcText(x.Pos())
+			case *ssa.Select:
+				if kind != "select" {
+					continue
+				}
+				pat = fc.srcText(x.Pos())
+			case *ssa.MakeSlice:
+				if kind != "make" {
+					continue
+				}
+				pat = fc.srcText(x.Pos())
+			case *ssa.UnOp:
+				if kind != "recv" || x.Op != token.ARROW {
+					continue
+				}
+				pat = fc.srcText(x.Pos())
+			default:
+				continue
+			}
+			if anchorMatches(a, kind, pat) {
+				sites = append(sites, in)
+			}
+		}
+	}
+	sort.SliceStable(sites, func(i, j int) bool { return sites[i].Pos() < sites[j].Pos() })
+	for i, s := range sites {
+		if s == instr {
+			return i + 1
+		}
+	}
+	return 0
 }
